@@ -150,6 +150,8 @@ func reads(f *fox.Router, host string) []read {
 			}
 		}},
 		{"ServeHTTP deep", serve("GET", "/deep/"+strings.Repeat("z", 30)+"/v/yyy")},
+		{"ServeHTTP infix catch-all", serve("GET", "/ix/x/y/bar/a")},
+		{"Router.Reverse infix catch-all", func() { f.Reverse("GET", host, "/ix/x/bar/b/1") }},
 		{"Router.Iter.Routes", func() {
 			for range f.Iter().Routes(slices.Values(ms), "/static") {
 			}
@@ -233,6 +235,12 @@ func build(c *Case) (*fox.Router, error) {
 	f.MustHandle("GET", pre+"/files/*{path}", h)
 	f.MustHandle("GET", pre+"/ign/{id}", h, fox.WithIgnoreTrailingSlash(true))
 	f.MustHandle("GET", pre+"/red/{id}/", h, fox.WithRedirectTrailingSlash(true))
+	// an infix catch-all node with routes below it; a later committed write that passes through it leaves a copy of the node
+	// in the published tree (whatever such a copy builds lazily, it builds during a read)
+	f.MustHandle("GET", pre+"/ix/*{any}/bar/a", h)
+	f.MustHandle("GET", pre+"/ix/*{any}/bar/b/{p}", h)
+	f.MustHandle("GET", pre+"/ix/*{any}/bar/ab", h)
+	_, _ = f.Update("GET", pre+"/ix/*{any}/bar/b/{p}", h)
 	for i := 1; i <= c.Deep; i++ {
 		f.MustHandle("GET", pre+"/deep/"+strings.Repeat("z", i), h)
 		f.MustHandle("GET", pre+"/deep/"+strings.Repeat("z", i)+"/{p}/"+strings.Repeat("y", i%7+1), h)
